@@ -464,3 +464,6 @@ def main(sess):
     for name, f in (('alias', fam_alias), ('lexer_words', fam_lexer_words), ('lexer_pairs', fam_lexer_pairs), ('lexer_splits', fam_lexer_splits), ('parse_pairs', fam_parse_pairs)):
         if not only or name in only:
             f(sess)
+    if not only or 'e2e' in only:
+        from drivers import e2e
+        e2e.family_for(sess, 'C11', quick_n=4)
